@@ -104,6 +104,8 @@ def case(draw, tier):
         cols = {"r": st.sampled_from(rp), "c": st.sampled_from(cp), "v": st.integers(0, 9), "x": st.integers(0, 2), "y": st.none()}
         c["table"] = draw(gen.table(list(hdr), [cols[f] for f in hdr], max_rows=maxrows + 2))
         c["agg"] = draw(st.sampled_from(["sum", "list", "len"]))
+        # the input may itself be a sort view - on the row field only, on both, on the column field, descending
+        c["upstream"] = draw(st.sampled_from([None, None, None, "r", "r-tuple", "rc", "c", "r-desc"]))
         c["missing"] = draw(st.sampled_from([None, "M", None, "M", 0, "", False]))
     else:
         fi = draw(st.integers(0, nf - 1))
@@ -268,6 +270,12 @@ def check(case, ctx):
         elif op == "pivot":
             agg = {"sum": sum, "list": list, "len": len}[case["agg"]]
             ri, ci, vi = hdr.index("r"), hdr.index("c"), hdr.index("v")
+            up = case.get("upstream")
+            if up:
+                ukey = {"r": "r", "r-tuple": ("r",), "rc": ("r", "c"), "c": "c", "r-desc": "r"}[up]
+                T = etl.sort(T, ukey, reverse=up == "r-desc")
+                rows = _T(R.ref_sort([hdr] + [list(r) for r in rows], ukey, up == "r-desc")[1:])
+                ctx.label("pivot-of-sortview:" + up)
             got = _T(etl.pivot(T, "r", "c", "v", agg, missing=case["missing"]))
             cvals = sorted(set(r[ci] for r in rows))
             groups = R.ref_groups([hdr] + [list(r) for r in rows], "r")
